@@ -659,10 +659,13 @@ class PipeFunc(Generic[T]):
             try:
                 result = self.func(*args, **kwargs)
             except Exception as e:
-                print(
-                    f"An error occurred while calling the function `{self.__name__}`"
-                    f" with the arguments `{args=}` and `{kwargs=}`.",
-                )
+                # Printing must never replace the user's exception, e.g., when
+                # `sys.stdout` cannot encode the `repr` of an argument.
+                with contextlib.suppress(Exception):
+                    print(
+                        f"An error occurred while calling the function `{self.__name__}`"
+                        f" with the arguments `{args=}` and `{kwargs=}`.",
+                    )
                 self.error_snapshot = ErrorSnapshot(self.func, e, args, kwargs)
                 raise
 
